@@ -6,7 +6,7 @@
    "the next n bytes or a truncation error". *)
 From Coq Require Import NArith ZArith List Bool Floats.
 Import ListNotations.
-From Fit Require Export Model.Value Model.Profile Model.Crc Model.F64 gen.Factory.
+From Fit Require Export Model.Value Model.Profile Model.Crc Model.F64 gen.Factory gen.ConvMode.
 Open Scope N_scope.
 
 (* ---------------------------------------------------------------- protocol records *)
@@ -322,6 +322,40 @@ Definition value_append (sl elem : value) : value :=
 Fixpoint last_index (fs : list field) (num : N) (i : nat) (found : option nat) : option nat :=
   match fs with [] => found | f :: r => last_index r num (S i) (if f_num f =? num then Some i else found) end.
 
+(* one component after the other: cut its bits, accumulate, scale into the destination's units, replace or append the
+   destination, then expand the destination's own components ([rec] = expandComponents one level deeper) *)
+Fixpoint expand_loop (rec : list field -> list accval -> value -> N -> list comp -> list field * list accval)
+         (mesgnum : N) (many : bool) (cs : list comp) (store : list N) (fs : list field) (acc : list accval) {struct cs}
+  : list field * list accval :=
+  match cs with
+  | [] => (fs, acc)
+  | cmp :: rest =>
+    let cf := create_field mesgnum (c_num cmp) in
+    let cf := mkfield (f_fb cf) (f_known cf) (f_value cf) true in
+    let pv := pull store (c_bits cmp) in
+    let v := fst pv in
+    let store := snd pv in
+    if (v =? 0) && many then (fs, acc) else
+    let av := if c_accum cmp then acc_accumulate acc mesgnum (c_num cmp) v (c_bits cmp) else (acc, v) in
+    let acc := fst av in
+    let v := snd av in
+    let scaled := so_apply v (f64_of_bits (c_scale cmp)) (f64_of_bits (c_offset cmp)) in
+    let v := f64_to_u32_mode mode_expand (so_discard scaled (f64_of_bits (fb_scale (f_fb cf))) (f64_of_bits (fb_offset (f_fb cf)))) in
+    let val := convert_u32_to_value v (f_base cf) in
+    let fs :=
+      match last_index fs (c_num cmp) 0 None with
+      | Some j =>
+          match nth_opt fs j with
+          | Some fr => replace_nth fs j (set_value fr (if fb_array (f_fb fr) then value_append (f_value fr) val else val))
+          | None => fs
+          end
+      | None => fs ++ [set_value cf (if fb_array (f_fb cf) then value_append (f_value cf) val else val)]
+      end in
+    let comps' := match subfield_substitution (fb_subs (f_fb cf)) fs with Some sf => s_comps sf | None => fb_comps (f_fb cf) end in
+    let r := rec fs acc val (f_base cf) comps' in
+    expand_loop rec mesgnum many rest store (fst r) (snd r)
+  end.
+
 Fixpoint expand_components (fuel : nat) (mesgnum : N) (fs : list field) (acc : list accval)
          (containing : value) (base : N) (comps : list comp) : list field * list accval :=
   match fuel with
@@ -333,34 +367,7 @@ Fixpoint expand_components (fuel : nat) (mesgnum : N) (fs : list field) (acc : l
       if negb (valid containing base) then (fs, acc) else
       match make_bits containing with
       | None => (fs, acc)
-      | Some store =>
-        let many := 1 <? len comps in
-        let fix loop (cs : list comp) (store : list N) (fs : list field) (acc : list accval) {struct cs} : list field * list accval :=
-          match cs with
-          | [] => (fs, acc)
-          | cmp :: rest =>
-            let cf := create_field mesgnum (c_num cmp) in
-            let cf := mkfield (f_fb cf) (f_known cf) (f_value cf) true in
-            let '(v, store) := pull store (c_bits cmp) in
-            if (v =? 0) && many then (fs, acc) else
-            let '(acc, v) := if c_accum cmp then acc_accumulate acc mesgnum (c_num cmp) v (c_bits cmp) else (acc, v) in
-            let scaled := so_apply v (f64_of_bits (c_scale cmp)) (f64_of_bits (c_offset cmp)) in
-            let v := f64_to_u32 (so_discard scaled (f64_of_bits (fb_scale (f_fb cf))) (f64_of_bits (fb_offset (f_fb cf)))) in
-            let val := convert_u32_to_value v (f_base cf) in
-            let fs :=
-              match last_index fs (c_num cmp) 0 None with
-              | Some j =>
-                  match nth_opt fs j with
-                  | Some fr => replace_nth fs j (set_value fr (if fb_array (f_fb fr) then value_append (f_value fr) val else val))
-                  | None => fs
-                  end
-              | None => fs ++ [set_value cf (if fb_array (f_fb cf) then value_append (f_value cf) val else val)]
-              end in
-            let comps' := match subfield_substitution (fb_subs (f_fb cf)) fs with Some sf => s_comps sf | None => fb_comps (f_fb cf) end in
-            let '(fs, acc) := expand_components fuel' mesgnum fs acc val (f_base cf) comps' in
-            loop rest store fs acc
-          end in
-        loop comps store fs acc
+      | Some store => expand_loop (expand_components fuel' mesgnum) mesgnum (1 <? len comps) comps store fs acc
       end
     end
   end.
